@@ -85,7 +85,7 @@ class Branch:
     def key(self):
         if self.kind == "re":
             return "|".join(a for a, _ in self.pats)
-        return "|".join(self.consts)
+        return "|".join(sorted(self.consts))  # a list of literals is a set: its spelling order is irrelevant
 
 
 def extract():
